@@ -339,6 +339,13 @@ Proof.
   - inversion H; subst. rewrite Ea. apply T_nil.
 Qed.
 
+Lemma request_pause_in_task_T (s : st) d s' e o : request_pause_in_task P D s d = (s', e, o) -> T (abs s) o (abs s').
+Proof.
+  unfold request_pause_in_task. destruct (request_pause P D s d) as [[s1 e1] o1] eqn:E.
+  apply request_pause_T in E. intros H; inversion H; subst; clear H.
+  destruct (resumable P D s); [exact E | rewrite abs_set_must_cancel; exact E].
+Qed.
+
 Lemma reset_checkpoint_T (s : st) : T (abs s) [] (abs (reset_checkpoint P D s)).
 Proof.
   unfold reset_checkpoint. destruct (cache P D s); [|apply T_nil].
@@ -471,8 +478,8 @@ Proof.
     destruct (resumable P D (set_rewindable P D s b) && negb (Bool.eqb b (rewindable P D s))); [|apply T_nil].
     apply (reset_checkpoint_T (set_rewindable P D s b)).
   - (* pause *)
-    destruct (request_pause P D s defer) as [[s1 e] o1] eqn:E. intros H; inversion H; subst.
-    eapply request_pause_T; eassumption.
+    destruct (request_pause_in_task P D s defer) as [[s1 e] o1] eqn:E. intros H; inversion H; subst.
+    eapply request_pause_in_task_T; eassumption.
   - (* create *)
     destruct (alookup (mrun m) (bundlers P D s)) as [b|] eqn:Eb; [|intros H; inversion H; subst; apply T_nil].
     destruct (bbundling b); intros H; inversion H; subst; [apply T_nil|].
